@@ -316,7 +316,12 @@ func (nr *NCRun) workload(env *Env) {
 			case "idle":
 				time.Sleep(Micro(op.IdleUS))
 			case "inject":
-				nr.Tr.Inject([]simnet.Seg{{B: []byte(op.A + ncDelim10), Msg: 1 << 20}})
+				// unsolicited server message, framed as the session's version demands
+				framed := op.A + ncDelim10
+				if nr.Ver == "1.1" {
+					framed = peer.Frame11(op.A, nil)
+				}
+				nr.Tr.Inject([]simnet.Seg{{B: []byte(framed), Msg: 1 << 20}})
 			case "lose:eof":
 				nr.Tr.LoseNow("eof")
 			case "lose:readerr":
